@@ -303,6 +303,13 @@ func (a *Analysis) evaluate() []Violation {
 	a.ruleLeaks()
 	a.ruleOrder()
 	a.ruleHeld()
+	// C09.valid: results must respect the lifetime rules also under concurrency
+	for _, v := range a.vs {
+		switch v.Rule {
+		case "C01.same", "C01.once", "C02.one", "C02.isolated", "C03.fresh":
+			a.vs = append(a.vs, Violation{Prop: "C09", Rule: "C09.lifetime", Shape: v.Rule + "/" + v.Shape, Msg: v.Msg})
+		}
+	}
 	return a.vs
 }
 
@@ -460,6 +467,14 @@ func (a *Analysis) ruleLifetimes() {
 				}
 			}
 			if r.Life == LScoped && inv.Outcome == OutOK && r.Form != FVoid && r.Form != FVoidErr {
+				if inv.Op >= 0 {
+					op := a.ops[inv.Op]
+					if hasClass(op.Classes, EScopeDisposed) || hasClass(op.Classes, EProviderDisposed) {
+						// constructed while the scope was being closed: the instance was
+						// rejected (and disposed), it never became the scope's instance
+						continue
+					}
+				}
 				sc := a.scopeOfInv(inv)
 				if sc.Kind != OwUnknown {
 					scopedInv[sk{inv.Reg, 0, sc}]++
@@ -950,6 +965,8 @@ func (a *Analysis) ruleSched() {
 		sort.Strings(sites)
 		a.add("C09", "C09.deadlock", "stuck", "client tasks %v can make no progress; parked at: %s", v.StuckClients, strings.Join(sites, " | "))
 		a.add("C13", "C13.overlap", "hang", "client tasks %v can make no progress; parked at: %s", v.StuckClients, strings.Join(sites, " | "))
+		a.add("C05", "C05.term", "hang", "a resolution never terminates: client tasks %v can make no progress; parked at: %s", v.StuckClients, strings.Join(sites, " | "))
+		a.add("C02", "C02.one", "hang", "client tasks %v can make no progress; parked at: %s", v.StuckClients, strings.Join(sites, " | "))
 	}
 	for _, t := range a.h.sim.Tasks() {
 		if !t.Client && t.Panic != nil {
@@ -1084,6 +1101,32 @@ func (a *Analysis) ruleOrder() {
 			case ow.Kind == OwScope && a.descendantOf(ow.ID, op.Handle):
 				if ev.Seq > lastDesc {
 					lastDesc, descInst = ev.Seq, in.ID
+				}
+			}
+		}
+		// everything owned by a descendant scope that existed when the Close started
+		// must have been disposed by the time the Close returns (and before the
+		// scope's own instances), whatever Close methods failed on the way
+		if op.Handle > 0 || op.Handle == 0 {
+			for _, in := range a.h.insts {
+				if in.Inv < 0 || !a.m.regs[in.Reg].Outs[in.OutIdx].Concrete.IsDisp() {
+					continue
+				}
+				inv := a.h.invs[in.Inv]
+				if inv.Outcome != OutOK || inv.ExitSeq > op.StartSeq {
+					continue
+				}
+				ow := a.ownerOf(in)
+				inSubtree := ow.Kind == OwScope && (a.descendantOf(ow.ID, op.Handle) || op.Handle == 0)
+				if !inSubtree {
+					continue
+				}
+				late := in.closeCount == 0 || in.closeSeq[0] > op.EndSeq
+				if late {
+					a.add("C11", "C11.childrenFirst", "left-open", "Close of h%d (op%d) returned while instance #%d (r%d) of descendant %s was still open", op.Handle, op.GID, in.ID, in.Reg, ow)
+					a.add("C12", "C12.all", "left-open", "Close of h%d (op%d) returned while instance #%d (r%d) of descendant %s was still open", op.Handle, op.GID, in.ID, in.Reg, ow)
+				} else if firstOwn > 0 && in.closeSeq[0] > firstOwn {
+					a.add("C11", "C11.childrenFirst", "scope", "Close of h%d (op%d): instance #%d of descendant %s was closed (seq %d) after the scope had started disposing its own instances (seq %d)", op.Handle, op.GID, in.ID, ow, in.closeSeq[0], firstOwn)
 				}
 			}
 		}
